@@ -248,6 +248,49 @@ def run(pid, tier, replay=None):
         chk.violation(clause, {"run": facts[line - 1]["what"]}, {"clause": clause})
     sk.restore_cfg()
 
+    # ---- (c3) the wallet scripts themselves (scripts/send.py, scripts/receive.py: their real main()) killed after every visible step -- a key
+    #      handed out, wallet.json saved, the key leaving the process (printed address / change output of the broadcast spend) -- then a
+    #      restart handing out a key (KeyEscape.tla; TraceKeyEscape)
+    from harness import scripts_drv
+    for sbe, expect in ((True, None), (False, "I_C15_EscapedKeyNotHandedOutAgain")):
+        rk = tracecheck.model("KeyEscape", "Spec", {"Keys": [1, 2, 3], "SaveBeforeEscape": sbe}, workers=2, timeout=300,
+                              invariants=["I_C15_EscapedKeyNotHandedOutAgain", "I_EscapedKeysAreUsedOnDisk"])
+        tlc.require_clean(rk, "KeyEscape")
+        chk.add_tlc("KeyEscape SaveBeforeEscape=%s (hand-out / save / escape with a crash before and after each, restart)" % sbe, rk, expect_violation=expect)
+        if (expect is None) != (not rk.violated):
+            return machinery_failure(pid, "KeyEscape SaveBeforeEscape=%s: unexpected %s" % (sbe, rk.violated))
+    sk.apply_cfg(cfg_m)
+    w_s, g_s, blocks_s, txs_s = nodechk.build_universe(cfg_m, keys_m)
+    cs_s = w_s.T["CoinState"].empty().add_block_no_validation(g_s).add_block_no_validation(blocks_s[1])
+    from skepticoin.humans import human
+    target_addr = "SKE" + human(keys_m.pub[6]) + "PTI"
+    ktraces, kinfo = [], {}
+    for script, argv in (("send", ["3", "sashimi", target_addr]), ("receive", ["for the shop"])):
+        k_ = 0
+        while k_ <= 8:
+            evs, killed, code, raised, nkeys = scripts_drv.run(script, keys_m, cs_s, argv, k_)
+            tid_ = len(ktraces) + 1
+            ktraces.append({"id": tid_, "script": script, "nkeys": nkeys, "events": evs})
+            kinfo[tid_] = {"script": script, "killed_after_visible_step": k_ if killed else None, "exit": code, "raised": raised, "events": evs}
+            chk.case(("script", script, k_), nontrivial=True)
+            if k_ == 0:
+                nvis = len([e for e in evs if e["op"] in ("handout", "save", "escape")])
+                if nvis < 3 or raised:
+                    return machinery_failure(pid, "the %s script did not run through its visible steps (%s; %s)" % (script, evs, raised))
+            elif not killed:
+                break
+            k_ += 1
+    vk, rk2 = tracecheck.run("TraceKeyEscape", ktraces, {}, ids=[t["id"] for t in ktraces], workers=1, timeout=600)
+    chk.traces_validated += len(ktraces)
+    chk.states += rk2.distinct
+    for t_id, (clause, line) in vk.items():
+        if clause != "ok":
+            chk.violation(clause, kinfo[t_id], {"clause": clause})
+    for dft in tlc.tagged(rk2, "DRIFT"):
+        chk.model_drift("wallet script run %s event %s: %s" % tuple(dft[:3]))
+    chk.extra["wallet_script_runs_with_a_kill_after_each_visible_step"] = len(ktraces)
+    sk.restore_cfg()
+
     # ---- (d) reported balance
     cfg = sk.Cfg(**MODEL_CFG)
     sk.apply_cfg(cfg)
